@@ -675,7 +675,19 @@ func doCheck(cfg tierCfg) int {
 		trouble("%v", err)
 	}
 	fmt.Printf("[t=%.0fs] pool growth: %d inputs added (of %d shard finds) because they execute yield sites the corpus does not reach (single-token truncations / deletions of corpus files)\n", time.Since(start).Seconds(), len(grown), shardFinds)
+	// a tree that can block for real (channels, primitives the shim does not model, goroutines of
+	// its own) needs the watchdog to grant the baton past blocked tasks (DESIGN §2.4)
+	extBlock := false
+	for _, k := range []string{"chan_ops", "sync_left_real", "go_statements"} {
+		if l, _ := b.instr[k].([]any); len(l) > 0 {
+			extBlock = true
+		}
+	}
 	common := []string{"-root", b.rootSerial, "-seed", fmt.Sprint(seed), "-corrupt", fmt.Sprint(cfg.corrupt), "-churn", fmt.Sprint(cfg.churn), "-large", fmt.Sprint(cfg.large), "-extra", extraFile}
+	if extBlock {
+		common = append(common, "-extblock")
+		fmt.Println("note: the tree can block on primitives the simulator does not own; the watchdog grants the baton past blocked tasks (such runs are degraded: not exactly replayable)")
+	}
 	ncpu := runtime.NumCPU()
 	if ncpu > 16 {
 		ncpu = 16
@@ -1134,6 +1146,8 @@ func doCheck(cfg tierCfg) int {
 			"bursts":                                    map[string]any{"bursts": burst.Runs, "operations": burst.Ops, "gomaxprocs": []int{2, 4, 8, 16}, "race_reports": len(raceReports)},
 			"aborted_runs":                              tot.Aborted,
 			"degraded_determinism":                      degradedWhy,
+			"degraded_runs":                             tot.Faults["degraded-run"],
+			"external_block_grants":                     tot.Faults["external-block-grant"],
 			"foreign_goroutine_yields":                  tot.Foreign,
 			"external_block_events":                     tot.Aborted["external block (no yield for 10 s of real time)"],
 			"infeasible_segments":                       tot.Infeasible,
@@ -1337,6 +1351,9 @@ func compareSides(paths []string) (compared int, logDiff, outDiff *int64) {
 				continue
 			}
 			a := ms[0][i]
+			if (r.flags|a.flags)&4 != 0 && r.out == a.out {
+				continue // a degraded run: its schedule legitimately depends on real time
+			}
 			if r.out != a.out && outDiff == nil {
 				v := int64(i)
 				outDiff = &v
